@@ -204,3 +204,10 @@ macro_rules! impl_array(
 );
 
 impl_array!(1, 2, 3, 4, 5, 6);
+
+// Verification hook (guarded, see src/lib.rs): contracts that need this module's private items.
+#[cfg(any(kani, debruijn_verif))]
+#[allow(dead_code, unused_imports, unused_macros, unused_variables, non_snake_case)]
+pub mod verif {
+    include!(concat!(env!("DEBRUIJN_VERIF_DIR"), "/kani/m_vmer.rs"));
+}
